@@ -54,7 +54,8 @@ def check(prop, tier):
     bp = os.path.join(wd, "bad.json")
     json.dump(bad, open(bp, "w"))
     rb = tlc.run("SharpIR", CFG, env={"IR_DATA": bp}, workers=4, heap="4g", timeout=1800, tag="irbad")
-    if rb.violated not in ("C17_FollowsLaw", "C17_Monotone"):
+    if not r.violated and rb.violated not in ("C17_FollowsLaw", "C17_Monotone"):
+        # (when the readings themselves already break an invariant TLC stops at that one)
         raise MachineryError("a corrupted reading was not rejected (%s)" % (rb.violated or rb.summary()))
     if r.violated:
         st = " ".join(x.strip() for x in (r.trace[-1] if r.trace else []))
